@@ -24,6 +24,8 @@ CONSTANTS
   FailSet = {0, 1, 2, 3}
   MaxReq = 1
   SharedBuf = FALSE
+  Deadl = TRUE
+  KACloseOnDone = FALSE
   MmEncodeInAdd = TRUE
 INVARIANTS TypeOK MmFramed MmOrder MmNoEmpty MmComplete MmFailed NoGarbage NoCrash MmTickerStoppedAtReturn
 CHECK_DEADLOCK FALSE
